@@ -8,6 +8,7 @@
 #include <pthread.h>
 #include <sys/mman.h>
 #include <functional>
+#include <dlfcn.h>
 
 namespace {
 
@@ -62,6 +63,9 @@ static Bytes nested_doc(int objs, int arrs, size_t strlen_) {
     Node s; s.t = V_STR; s.s.assign(strlen_, 's'); cur->kids.push_back(s);
     Node b; b.t = V_BYTES; b.s = Bytes{1, 2, 3}; cur->kids.push_back(b);
     Node d; d.t = V_DBL; d.d = 0x3ff8000000000000ULL; cur->kids.push_back(d);
+    // magnitudes at the ends of the ranges: whatever the library does per digit / per byte of a number shows here
+    { Node x; x.t = V_INT; x.i = INT64_MAX; cur->kids.push_back(x); x.i = INT64_MIN; cur->kids.push_back(x); x.i = 4294967296LL; cur->kids.push_back(x); }
+    { Node x; x.t = V_DBL; x.d = 0x7fefffffffffffffULL; cur->kids.push_back(x); x.d = 0x0000000000000001ULL; cur->kids.push_back(x); }
     Bytes out; encode(root, out);
     return out;
 }
@@ -86,7 +90,7 @@ static Bytes wide_doc(int n) {
     for (int i = 0; i < n; i++) {
         Node c; char nm[16]; snprintf(nm, sizeof nm, "k%06d", i); c.name.assign(nm, nm + 7);
         switch (i % 7) {
-            case 0: c.t = V_OBJ; break; case 1: c.t = V_ARR; break; case 2: c.t = V_INT; c.i = i; break; case 3: c.t = V_BOOL; c.b = true; break;
+            case 0: c.t = V_OBJ; break; case 1: c.t = V_ARR; break; case 2: c.t = V_INT; c.i = (i % 21 == 2) ? INT64_MIN + i : (i % 21 == 9) ? INT64_MAX - i : i; break; case 3: c.t = V_BOOL; c.b = true; break;
             case 4: c.t = V_DBL; c.d = 0x3ff8000000000000ULL; break; case 5: c.t = V_STR; c.s = Bytes{'s', 's', 's', 's'}; break; default: c.t = V_BYTES; c.s = Bytes{1, 2, 3}; break;
         }
         root.kids.push_back(c);
@@ -304,18 +308,32 @@ int footprint_cmd(const std::string &json_path, const std::string &replay_dir) {
         }
         j += "}";
     }
+    if (g_instr_build) {
+        // recursion verdict of the instrumented build, over the whole workload above (both passes)
+        uint64_t hits = g_recursion_hits.load();
+        j += fmt("\n  },\n  \"recursion\": {\"instrumented_build\": true, \"reentries_of_an_active_library_function\": %llu", (unsigned long long)hits);
+        if (hits) {
+            violations++;
+            Dl_info inner, outer; const char *in = "?", *on = "?";
+            if (dladdr((void *)g_recursion_fn, &inner) && inner.dli_sname) in = inner.dli_sname;
+            if (dladdr((void *)g_recursion_outer, &outer) && outer.dli_sname) on = outer.dli_sname;
+            fails.insert(fails.begin(), fmt("recursion: library function %s (%p) was entered while already active, %llu times, under the public call %s", in, (void *)g_recursion_fn, (unsigned long long)hits, on));
+        }
+    }
     j += fmt("\n  },\n  \"functions_measured\": %zu,\n  \"comparisons\": %zu,\n  \"violations\": %d\n}\n", functions, comparisons, violations);
     if (!json_path.empty()) { FILE *f = fopen(json_path.c_str(), "w"); if (f) { fputs(j.c_str(), f); fclose(f); } }
     fprintf(g_out, "binsim footprint: %zu functions, %zu (function, document) comparisons, %d over the bound\n", functions, comparisons, violations);
     if (violations) {
-        std::string path = replay_dir + "/C17-footprint.plan";
+        bool rec_fail = fails[0].compare(0, 10, "recursion:") == 0;
+        const char *clause = rec_fail ? "C17.recursion" : "C17.stack.grows";
+        std::string path = replay_dir + (g_instr_build ? "/C17-footprint-instr.plan" : "/C17-footprint.plan");
         std::string cmd = "mkdir -p '" + replay_dir + "'"; if (system(cmd.c_str()) != 0) {}
         std::string text = "binsim-plan 1\nengine footprint\nproperty C17\nseed 0\nindex 0\nroot object\nmax_depth 1\nprefill 0\nfaults -\ndoc -\nops -\n";
         for (auto &f : fails) text += "# " + f + "\n";
-        text += "expect C17.stack.grows 0000000000000000\n";
+        text += std::string("expect ") + clause + " 0000000000000000\n";
         FILE *f = fopen(path.c_str(), "w"); if (f) { fputs(text.c_str(), f); fclose(f); }
-        std::string sig = "C17.stack.grows|footprint|" + fails[0].substr(0, fails[0].find(' '));
-        fprintf(g_out, "FAILURE property=C17 clause=C17.stack.grows replay=%s sig=%s detail=%s\n", path.c_str(), to_hex((const uint8_t *)sig.data(), sig.size()).c_str(), json_escape(fails[0]).c_str());
+        std::string sig = std::string(clause) + "|footprint|" + fails[0].substr(0, fails[0].find(' '));
+        fprintf(g_out, "FAILURE property=C17 clause=%s replay=%s sig=%s detail=%s\n", clause, path.c_str(), to_hex((const uint8_t *)sig.data(), sig.size()).c_str(), json_escape(fails[0]).c_str());
     }
     fflush(g_out);
     return violations ? 1 : 0;
